@@ -56,9 +56,9 @@ func (r *verifSafeRecorder) Flush() {}
 // import them and is importable from the external harness module.
 func init() {
 	// one "POST /api/pull" through the real registry.Local handler (the retry loop of handlePull)
-	ollama.VerifHandler = func(ctx context.Context, rc *ollama.Registry, name string) (int, string) {
+	ollama.VerifHandler = func(ctx context.Context, rc *ollama.Registry, name string, stream bool) (int, string) {
 		s := &registry.Local{Client: rc, Logger: slog.New(slog.NewTextHandler(io.Discard, nil))}
-		req := httptest.NewRequest("POST", "/api/pull", strings.NewReader(fmt.Sprintf(`{"model":%q}`, name))).WithContext(ctx)
+		req := httptest.NewRequest("POST", "/api/pull", strings.NewReader(fmt.Sprintf(`{"model":%q,"stream":%v}`, name, stream))).WithContext(ctx)
 		rec := &verifSafeRecorder{hdr: http.Header{}}
 		s.ServeHTTP(rec, req)
 		rec.mu.Lock()
